@@ -74,4 +74,29 @@ def jobs(tier):
   required = "the interval derived from the variable-level distances, enclosing every consistent valuation";
 '''},
                    bounded='expressions with <= 2 terms over %d time points, |coefficients| < 2^%d, |x| <= 4, finite distances only (|D| <= 20 in the 8-bit quick tier, 64 otherwise: the inf() sentinel and its arithmetic are not modelled)' % (d['XT_NTP'], W)))
+    # distance(from, to): the interval of to - from.  As for the relations, `to` is fixed to the zero expression (from - to is exact by C15)
+    # and `from` is symbolic, so the interval must be the one of -from
+    HD = 'void xt_harness(void)\n{\n  xt_init_globals();\n' + hq + '\n  struct smt_idl_theory th; struct smt_lin *from;\n  struct smt_lin to = smt_lin_ctor();\n  smt_idl_theory_distance__lin__lin(&th, from, &to);\n}\n'
+    pred = [r.replace('*l)', '*from)').replace('(l,', '(from,') for r in preq] + ['to->vars.n == 0 && to->known_term.num == 0 && to->known_term.den == 1']
+    BD = 'sp_bounds_of(self->_dists, sp_lin_neg(*from))'
+    cd = Contract(requires=pred,
+                  ensures=[('only_invalid_argument', '__exc == 0 || __exc == EXC_invalid_argument'),
+                           ('serves_every_integer_difference_form', '!%s.ok || __exc == 0' % BD),
+                           ('agrees_with_the_variable_level_distances', '__exc != 0 || !%s.ok || ((WIDE_t)%s.first == %s.lo && (WIDE_t)%s.second == %s.hi)' % (BD, R, BD, R, BD)),
+                           ('encloses_every_consistent_valuation', '__exc != 0 || (sp_val_sign(sp_lin_neg(*from), (WIDE_t)%s.first) >= 0 && sp_val_sign(sp_lin_neg(*from), (WIDE_t)%s.second) <= 0)' % (R, R))],
+                  assigns='__exc')
+    out.append(Job('idl.distance', 'smt_idl_theory_distance__lin__lin', tus=TUS, contract=cd, defines=dict(d, XT_DQ=(20 if bits == 8 else 64)), unwind=6, model_unwind=8, spec_headers=SPEC, exceptions=True,
+                   caps={'map': 4, 'vec_vec_I': 4, 'vec_I': 4, 'vec_lit': 2}, abstract_fields=dict(ABS, **{'smt::lit': ['x']}), harness=HD, roots=['smt_lin_ctor'], timeout=3000, mem_gb=24,
+                   force_types=['std::vector<std::vector<long>>'],
+                   replay={'driver': 'dl', 'stanza': '''  const int n = XT_NTP; sat_core sat; idl_theory *th = build_idl_q(sat, n); lin from = mk_lin(100); lin to;
+  q_bounds want = bounds_of(*th, to - from); rational v = lin_value(to - from, n); std::string why;
+  try {
+    auto [lb, ub] = th->distance(from, to);
+    if (want.ok && (lb != want.lo || ub != want.hi)) { ok = false; why += " the distances give [" + std::to_string(want.lo) + ", " + std::to_string(want.hi) + "] for to - from;"; }
+    if (rational(lb) > v || rational(ub) < v) { ok = false; why += " a consistent valuation gives to - from the value " + to_string(v) + ";"; }
+    observed = "distance(" + show(from) + ", 0) = [" + std::to_string(lb) + ", " + std::to_string(ub) + "]" + why;
+  } catch (const std::invalid_argument &e) { if (want.ok) ok = false; observed = "distance(" + show(from) + ", 0) throws invalid_argument"; }
+  required = "the interval of to - from derived from the variable-level distances, enclosing every consistent valuation";
+'''},
+                   bounded='from: <= 2 terms over %d time points, to = 0; |coefficients| < 2^%d, |x| <= 4, finite distances only' % (d['XT_NTP'], W)))
     return out
